@@ -1,5 +1,189 @@
+(* Proofs about the protocol LTS of Model/CopyImpl.v. *)
 From Coq Require Import List Arith Bool Lia.
 From Oras Require Import Model.CopyImpl.
 Import ListNotations.
-Lemma init_free : forall K ext roots, free (init K ext roots) = K.
-Proof. reflexivity. Qed.
+
+Lemma upd_same {A} (f : nat -> A) i x : upd f i x i = x.
+Proof. unfold upd. now rewrite Nat.eqb_refl. Qed.
+Lemma upd_other {A} (f : nat -> A) i x j : j <> i -> upd f i x j = f j.
+Proof. intro H. unfold upd. destruct (Nat.eqb_spec j i); congruence. Qed.
+
+Definition b2n (b : bool) : nat := if b then 1 else 0.
+
+Lemma count_upto_ext p q n : (forall i, i < n -> p i = q i) -> count_upto p n = count_upto q n.
+Proof.
+  induction n; intros H; simpl; auto. rewrite H by lia. rewrite IHn; auto.
+Qed.
+Lemma count_upto_upd_ge {A} (g : A -> bool) (f : nat -> A) i x n : n <= i ->
+  count_upto (fun t => g (upd f i x t)) n = count_upto (fun t => g (f t)) n.
+Proof. intros H. apply count_upto_ext. intros j Hj. rewrite upd_other by lia. reflexivity. Qed.
+Lemma count_upto_upd {A} (g : A -> bool) (f : nat -> A) i x n : i < n ->
+  count_upto (fun t => g (upd f i x t)) n + b2n (g (f i)) = count_upto (fun t => g (f t)) n + b2n (g x).
+Proof.
+  induction n; intros H; [lia|]. simpl.
+  destruct (Nat.eq_dec i n) as [->|Hne].
+  - rewrite upd_same. rewrite count_upto_upd_ge by lia. unfold b2n. destruct (g x), (g (f n)); lia.
+  - rewrite upd_other by lia. assert (Hi : i < n) by lia. specialize (IHn Hi). lia.
+Qed.
+Lemma count_upto_le p q n : (forall i, p i = true -> q i = true) -> count_upto p n <= count_upto q n.
+Proof.
+  intros H. induction n; simpl; auto. specialize (H n). destruct (p n), (q n); try lia.
+Qed.
+Lemma count_upto_bound p n : count_upto p n <= n.
+Proof. induction n; simpl; auto. destruct (p n); lia. Qed.
+
+Definition must_hold (p : pc) : bool :=
+  match p with TSpawned | TTry | TExists | TFind | TPush => true | _ => false end.
+Definition may_hold (p : pc) : bool :=
+  match p with TSpawned | TTry | TExists | TFind | TEnd | TPush => true | _ => false end.
+
+(* destructs every match / if of a `step ... = Some s'` hypothesis *)
+Ltac inv_step H :=
+  unfold step in H; cbv zeta in H;
+  repeat match type of H with
+         | context [match ?x with _ => _ end] => destruct x eqn:?; try discriminate H
+         end;
+  try (injection H as H); try subst.
+
+Ltac upd_cases :=
+  repeat match goal with
+         | |- context [upd _ ?i _ ?j] =>
+           let E := fresh "E" in
+           destruct (Nat.eq_dec j i) as [E|E];
+           [ try subst; rewrite ?upd_same in * | rewrite (upd_other _ _ _ _ E) in * ]
+         | H : context [upd _ ?i _ ?j] |- _ =>
+           let E := fresh "E" in
+           destruct (Nat.eq_dec j i) as [E|E];
+           [ try subst; rewrite ?upd_same in * | rewrite (upd_other _ _ _ _ E) in * ]
+         end.
+
+Section Proofs.
+Variable succ : nat -> list nat.
+Variable K : nat.
+Variable ext : bool.
+Variable roots : list nat.
+
+Inductive Reachable : state -> Prop :=
+| R_init : Reachable (init K ext roots)
+| R_step s l s' : Reachable s -> step succ s l = Some s' -> Reachable s'.
+
+(* ------------------------------------------------------------------ permits *)
+
+Record Inv1 (s : state) : Prop := {
+  i1_wf : forall t, ntasks s <= t -> tasks s t = dtask;
+  i1_perm : free s + holders s = K;
+  i1_must : forall t, must_hold (t_pc (tasks s t)) = true -> t_holds (tasks s t) = true;
+  i1_may : forall t, t_holds (tasks s t) = true -> may_hold (t_pc (tasks s t)) = true }.
+
+Lemma live_lt s t : (forall t, ntasks s <= t -> tasks s t = dtask) ->
+  is_fin (t_pc (tasks s t)) = false -> t < ntasks s.
+Proof.
+  intros Hwf Hp. destruct (Nat.lt_ge_cases t (ntasks s)); auto. rewrite Hwf in Hp by auto. discriminate.
+Qed.
+
+Lemma holders_upd s ts t x fr nf fe trk tc fl :
+  ts = tasks s -> t < ntasks s ->
+  holders (mkState (upd ts t x) (ntasks s) fr nf fe trk tc fl) + b2n (t_holds (tasks s t))
+  = holders s + b2n (t_holds x).
+Proof. intros -> Hlt. unfold holders. simpl. apply (count_upto_upd t_holds). auto. Qed.
+
+Lemma inv1_init : Inv1 (init K ext roots).
+Proof. constructor; simpl; intros; auto; try discriminate. Qed.
+
+Ltac live t :=
+  match goal with
+  | Hwf : forall t, ntasks ?s <= t -> tasks ?s t = dtask, Hpc : t_pc (tasks ?s t) = _ |- _ =>
+    assert (t < ntasks s) by (apply (live_lt s t Hwf); rewrite Hpc; reflexivity)
+  end.
+
+Ltac holds_from_pc :=
+  repeat match goal with
+         | Hm : (forall t, must_hold (t_pc (tasks ?s t)) = true -> _), Hpc : t_pc (tasks ?s ?t) = _ |- _ =>
+           lazymatch goal with
+           | _ : t_holds (tasks s t) = true |- _ => fail
+           | _ => idtac
+           end;
+           assert (t_holds (tasks s t) = true) by (apply Hm; rewrite Hpc; reflexivity)
+         end.
+
+Ltac perm_tac :=
+  match goal with
+  | |- context [holders (mkState (upd (tasks ?s) ?t ?x) (ntasks ?s) ?a ?b ?c ?d ?e ?f)] =>
+    let HH := fresh "HH" in
+    pose proof (holders_upd s (tasks s) t x a b c d e f eq_refl ltac:(assumption)) as HH;
+    cbn [set_pc set_pc_holds t_holds] in HH; unfold b2n in HH;
+    repeat match goal with
+           | |- context [if t_holds ?y then _ else _] => destruct (t_holds y) eqn:?
+           | H : context [if t_holds ?y then _ else _] |- _ => destruct (t_holds y) eqn:?
+           end;
+    try congruence; try lia
+  end.
+
+Lemma inv1_step s l s' : Inv1 s -> step succ s l = Some s' -> Inv1 s'.
+Proof.
+  intros [Hwf Hperm Hmust Hmay] Hs.
+  destruct l; inv_step Hs.
+  all: try (live t).
+  all: try match goal with H : t_pc (tasks _ ?p) = TInGo _ |- _ => live p end.
+  all: holds_from_pc.
+  all: constructor; unfold finish, with_tasks; cbn [tasks ntasks free frames nframes tracker]; intros.
+  (* wf *)
+  all: try solve [ upd_cases; try lia; apply Hwf; lia ].
+  (* perm *)
+  all: try solve [ assumption | perm_tac ].
+  (* must / may *)
+  all: try solve [ upd_cases; unfold wait_pc in *; cbn in *; auto; try congruence;
+                   repeat match goal with
+                          | H : t_holds (tasks ?s ?t) = true, Hm : forall t, t_holds (tasks ?s t) = true -> _ |- _ => apply Hm in H
+                          end;
+                   repeat match goal with
+                          | H : t_pc (tasks _ ?t) = _ |- _ => first [rewrite H in * | clear H]
+                          end;
+                   repeat match goal with
+                          | H : context [match ?x with _ => _ end] |- _ => destruct x
+                          | |- context [match ?x with _ => _ end] => destruct x
+                          end;
+                   cbn in *; auto; try congruence ].
+  unfold holders. cbn [tasks ntasks]. simpl count_upto. rewrite upd_same. cbn [t_holds].
+  rewrite (count_upto_upd_ge t_holds) by lia. unfold holders in Hperm. lia.
+Qed.
+
+Lemma inv1_reach s : Reachable s -> Inv1 s.
+Proof. induction 1; eauto using inv1_init, inv1_step. Qed.
+
+Lemma permits_conserved s : Reachable s ->
+  free s + holders s = K /\ holders s <= K /\
+  (forall t, is_fin (t_pc (tasks s t)) = true -> t_holds (tasks s t) = false).
+Proof.
+  intros H. destruct (inv1_reach s H) as [Hwf Hperm Hmust Hmay]. repeat split; auto; try lia.
+  intros t Hf. destruct (t_holds (tasks s t)) eqn:Hh; auto. apply Hmay in Hh.
+  destruct (t_pc (tasks s t)); discriminate.
+Qed.
+
+(* End / Start are idempotent: a task that does not hold a permit releases nothing when it ends its
+   region or finishes; a task that holds one does not acquire a second one *)
+Lemma end_idempotent s t s' : step succ s (LEnd t) = Some s' ->
+  t_holds (tasks s' t) = false /\ free s' = (if t_holds (tasks s t) then S (free s) else free s).
+Proof.
+  intros Hs. inv_step Hs; cbn; rewrite upd_same; auto.
+Qed.
+Lemma finish_releases_once s t e m :
+  free (finish s t e m) = (if t_holds (tasks s t) then S (free s) else free s) /\
+  t_holds (tasks (finish s t e m) t) = false.
+Proof. unfold finish. cbn. rewrite upd_same. auto. Qed.
+Lemma start_idempotent s t s' : step succ s (LStart t) = Some s' -> t_holds (tasks s t) = true ->
+  t_kind (tasks s t) = KFn -> free s' = free s /\ t_holds (tasks s' t) = true.
+Proof.
+  intros Hs Hh Hk. inv_step Hs; try congruence; cbn; rewrite upd_same; auto.
+Qed.
+
+Lemma inflight_bounded s : Reachable s -> inflight s <= holders s /\ inflight s <= K.
+Proof.
+  intros H. destruct (inv1_reach s H) as [Hwf Hperm Hmust Hmay].
+  assert (inflight s <= holders s).
+  { unfold inflight, holders. apply count_upto_le. intros i Hi. apply Hmust.
+    destruct (t_pc (tasks s i)); try discriminate; reflexivity. }
+  split; auto. lia.
+Qed.
+
+End Proofs.
